@@ -457,3 +457,36 @@ Theorem ram_one_per_graph N (a b : Z -> bool) : 0 <= N -> (forall u v, 1 <= u ->
 Proof.
   intros HN H x Hx. destruct (cid_surj N x HN Hx) as [u [v [Hu [Hv E]]]]. subst x. now apply H.
 Qed.
+
+(* "VanDerWaerden returns a formula on every valid argument" *)
+Definition vdw_total_statement (formula : Z -> list Z -> c3res) : Prop :=
+  forall N ks, vdw_args_ok N ks = true -> exists nv f, formula N ks = C3Ok nv f.
+Theorem vdw_total_refuted : ~ vdw_total_statement vdw_formula.
+Proof.
+  intros H. destruct (H 5 [1; 2] eq_refl) as [nv [f E]].
+  rewrite (vdw_crashes_on_length_one 5 [1; 2] eq_refl (or_introl eq_refl)) in E. discriminate.
+Qed.
+Theorem vdw_spec_total_holds : vdw_total_statement vdw_spec_formula.
+Proof. intros N ks H. rewrite (vdw_spec_total N ks H). eauto. Qed.
+
+(* no literal of the van der Waerden builder calls is 0: both renderings mean [irs_hold] *)
+Lemma vdw_ir_ok aps N ks : aps_correct aps N ks -> irs_ok (vdw_ir aps N ks) = true.
+Proof.
+  intros AC. destruct (Nat.eq_dec (length ks) 2) as [E|NE].
+  - destruct ks as [|k1 [|k2 [|k3 t]]]; try discriminate. cbn [vdw_ir]. unfold irs_ok, clauses_ir.
+    rewrite forallb_map. apply forallb_forall. intros c Hc. unfold ir_ok, lits_ok. cbn [ir_lits].
+    apply forallb_forall. intros l Hl. apply nonzero_spec. apply in_app_or in Hc as [Hc|Hc].
+    + apply (AC k1 (or_introl eq_refl)) in Hc. pose proof (is_ap_range _ _ _ _ Hc Hl). lia.
+    + apply in_map_iff in Hc as [ap [<- Hap]]. apply (AC k2 (or_intror (or_introl eq_refl))) in Hap.
+      apply in_map_iff in Hl as [i [<- Hi]]. pose proof (is_ap_range _ _ _ _ Hap Hi). lia.
+  - rewrite vdw_ir_many by assumption. rewrite irs_ok_app. apply andb_true_iff. split.
+    + unfold irs_ok. rewrite forallb_map. apply forallb_forall. intros i Hi. apply In_vrange in Hi.
+      unfold ir_ok, lits_ok. cbn [ir_lits]. apply forallb_forall. intros l Hl. apply in_map_iff in Hl as [c [<- Hc]].
+      apply In_vrange in Hc. apply nonzero_spec. pose proof (vdw_var_pos (len ks) i c). lia.
+    + unfold irs_ok. apply forallb_forall. intros x Hx. apply in_flat_map in Hx as [c [Hc Hx]]. apply In_vrange in Hc.
+      apply in_map_iff in Hx as [ap [<- Hap]].
+      assert (Hk : In (nth (Z.to_nat (c - 1)) ks 0) ks) by (apply nth_In; unfold len in Hc; lia).
+      apply (AC _ Hk) in Hap. unfold ir_ok, lits_ok. cbn [ir_lits]. apply forallb_forall. intros l Hl.
+      apply in_map_iff in Hl as [i [<- Hi]]. pose proof (is_ap_range _ _ _ _ Hap Hi). apply nonzero_spec.
+      pose proof (vdw_var_pos (len ks) i c). lia.
+Qed.
